@@ -202,6 +202,7 @@ func buildImage(kind string, tree []imgEntry, start int64, opt map[string]int64)
 		if err != nil {
 			return nil, err
 		}
+		var later []imgEntry
 		for _, e := range tree {
 			switch {
 			case e.Dir:
@@ -222,13 +223,30 @@ func buildImage(kind string, tree []imgEntry, start int64, opt map[string]int64)
 				if err != nil {
 					return nil, err
 				}
-				if len(e.Data) > 0 {
-					if _, err := f.Write(e.Data); err != nil {
+				// larger files are written in two parts, the second after all other files: their extents are
+				// then not adjacent on the device, as in any volume that has been in use for a while
+				first := e.Data
+				if len(e.Data) > 6000 {
+					first = e.Data[:len(e.Data)/2+13]
+					later = append(later, e)
+				}
+				if len(first) > 0 {
+					if _, err := f.Write(first); err != nil {
 						return nil, err
 					}
 				}
 				f.Close()
 			}
+		}
+		for _, e := range later {
+			f, err := fs.OpenFile(e.Path, os.O_RDWR|os.O_APPEND)
+			if err != nil {
+				return nil, err
+			}
+			if _, err := f.Write(e.Data[len(e.Data)/2+13:]); err != nil {
+				return nil, err
+			}
+			f.Close()
 		}
 		bi.D, bi.Size = d, size
 		bi.Open = func(b backend.Storage) (filesystem.FileSystem, error) { return ext4.Read(b, size, start, 512) }
@@ -247,6 +265,29 @@ func buildImage(kind string, tree []imgEntry, start int64, opt map[string]int64)
 		if err := writeHostTree(dir, tree); err != nil {
 			return nil, err
 		}
+		if opt["rich"] == 1 {
+			// structures the library never writes itself: a file whose extents need a leaf block (one extent per
+			// data page of a sparse file) and a directory that e2fsck -D turns into a hash-indexed one
+			f, err := os.Create(filepath.Join(dir, "SPARSE6.BIN"))
+			if err != nil {
+				return nil, err
+			}
+			for i := int64(0); i < 7; i++ {
+				if _, err := f.WriteAt(core.PatternBytes(uint64(i)+77, 4096), i*12288); err != nil {
+					return nil, err
+				}
+			}
+			f.Close()
+			if err := os.Mkdir(filepath.Join(dir, "IDX"), 0o755); err != nil {
+				return nil, err
+			}
+			for i := 0; i < 160; i++ {
+				if err := os.WriteFile(filepath.Join(dir, "IDX", fmt.Sprintf("entry-with-a-long-name-%04d.dat", i)), []byte{byte(i)}, 0o644); err != nil {
+					return nil, err
+				}
+			}
+			fixHostTimes(dir)
+		}
 		img := filepath.Join(scratch(), fmt.Sprintf("mke2fs-%d.img", scratchSeq))
 		defer os.Remove(img)
 		bs := opt["bs"]
@@ -262,6 +303,15 @@ func buildImage(kind string, tree []imgEntry, start int64, opt map[string]int64)
 		cmd.Env = append(os.Environ(), "E2FSPROGS_FAKE_TIME=1700000000")
 		if out, err := cmd.CombinedOutput(); err != nil {
 			return nil, fmt.Errorf("mke2fs: %v: %s", err, out)
+		}
+		if opt["rich"] == 1 {
+			c2 := exec.Command("/usr/sbin/e2fsck", "-f", "-y", "-D", img)
+			c2.Env = append(os.Environ(), "E2FSPROGS_FAKE_TIME=1700000000")
+			if out, err := c2.CombinedOutput(); err != nil {
+				if ee, ok := err.(*exec.ExitError); !ok || ee.ExitCode() > 1 {
+					return nil, fmt.Errorf("e2fsck -D: %v: %s", err, out)
+				}
+			}
 		}
 		d := simdisk.New(start + size + 4096)
 		if err := d.LoadFrom(img, start); err != nil {
